@@ -1,3 +1,4 @@
 import PahoProofs.Properties.C11
 import PahoProofs.Properties.C14
+import PahoProofs.Properties.C17
 import PahoProofs.Properties.C19
